@@ -55,6 +55,10 @@ structure LInstSt where
   procAt : List (Nat × Nat) := []          -- partition ↦ time the store processed (granted) that call
   lastFault : Nat := 0                     -- time of the last refused / errored / slow call
   provisioning : Bool := false
+  creates : Nat := 0                       -- number of (re-)provisionings so far
+  needySince : Option Nat := none          -- holds fewer than min(target, parts) partitions continuously since then
+  procs : Nat := 0                         -- lease calls processed by the store so far
+  faultsDoneAt : Nat := 0                  -- instant at which the last injected fault was consumed
   satisfied : Bool := false                -- since the last demand change / fault it has held min(needed, existing) partitions at some instant
 
 structure LMon where
@@ -67,6 +71,11 @@ def LMon.add (m : LMon) (p r : String) : LMon :=
 
 def LMon.upd (m : LMon) (i : Nat) (f : LInstSt → LInstSt) : LMon :=
   { m with insts := m.insts.modify i f }
+
+def LInstSt.reneedy (s : LInstSt) (t : Nat) : LInstSt :=
+  if s.held.length < min s.target s.parts then
+    (if s.needySince.isNone then { s with needySince := some t } else s)
+  else { s with needySince := none }
 
 def monitorLease (sc : LScn) (entries : List String) : List (String × String) := Id.run do
   let mut m : LMon := { insts := sc.insts.map fun c => { reserved := c.reserved, shared := c.shared } }
@@ -89,7 +98,7 @@ def monitorLease (sc : LScn) (entries : List String) : List (String × String) :
         let above := v - (ist i).reserved
         m := m.upd i fun s =>
           let tg := ceilDiv above fac
-          { s with target := tg, lastGiveMe := some (t, v), satisfied := decide (s.held.length ≥ min tg s.parts) }
+          ({ s with target := tg, lastGiveMe := some (t, v), satisfied := decide (s.held.length ≥ min tg s.parts) } : LInstSt).reneedy t
       else if a == "r" then m := m.upd i fun s => { s with reserved := v }
       else if a == "c" then
         if f.getD 5 "" == "ok" then m := m.upd i fun s => { s with shared := v }
@@ -115,7 +124,7 @@ def monitorLease (sc : LScn) (entries : List String) : List (String × String) :
       -- partitions beyond the new count stop being counted
       m := m.upd i fun s =>
         let h := s.held.filter (· < n3)
-        { s with parts := n3, held := h, provisioning := true, satisfied := s.satisfied || decide (h.length ≥ min s.target n3) }
+        ({ s with parts := n3, held := h, provisioning := true, creates := s.creates + 1, satisfied := s.satisfied || decide (h.length ≥ min s.target n3) } : LInstSt).reneedy t
     else if kind == "created" then
       m := m.upd n2 fun s => { s with provisioning := false }
     else if kind == "issue" then
@@ -131,6 +140,8 @@ def monitorLease (sc : LScn) (entries : List String) : List (String × String) :
       let i := n2
       let p := n3
       let res := f.getD 4 ""
+      let nf := (cfg i).faults.length
+      m := m.upd i fun s => { s with procs := s.procs + 1, faultsDoneAt := if s.procs + 1 == nf then t else s.faultsDoneAt }
       if res == "grant" then
         m := { m with store := (p, i, t + sc.lease) :: m.store.filter (·.1 != p) }
         m := m.upd i fun s => { s with procAt := (p, t) :: s.procAt.filter (·.1 != p) }
@@ -148,13 +159,13 @@ def monitorLease (sc : LScn) (entries : List String) : List (String × String) :
       if name == "allocated" then
         m := m.upd i fun s =>
           let h := if s.held.contains v then s.held else s.held ++ [v]
-          { s with held := h, satisfied := s.satisfied || decide (h.length ≥ min s.target s.parts) }
+          ({ s with held := h, satisfied := s.satisfied || decide (h.length ≥ min s.target s.parts) } : LInstSt).reneedy t
       else if name == "released" then
         -- never renewed: given up at most one lease duration after the grant was reported
         match (ist i).retAt.lookup v with
         | some r => if t > r + sc.lease then m := m.add "C07" "grant-kept-longer-than-one-lease-duration"
         | none => pure ()
-        m := m.upd i fun s => { s with held := s.held.filter (· != v) }
+        m := m.upd i fun s => ({ s with held := s.held.filter (· != v) } : LInstSt).reneedy t
       else if name == "shutdown" then
         if (ist i).shutdowns > 0 then m := m.add "C17" "second-shutdown-event"
         m := m.upd i fun s => { s with shutdowns := s.shutdowns + 1, shutdownAt := some t }
@@ -176,6 +187,17 @@ def monitorLease (sc : LScn) (entries : List String) : List (String × String) :
             -- C06: Capacity() = reserved + factor × held (v1 publishes asynchronously, still settled here)
             if s.started && !busy && cap != s.reserved + fac * s.held.length then
               m := m.add "C06" (if s.shutdownAt.isSome then "capacity-formula:after-shutdown" else "capacity-formula")
+              -- C17: after a live re-provisioning the figure must count exactly the surviving partitions
+              if s.creates ≥ 2 then m := m.add "C17" "capacity-wrong-after-reconfiguration"
+            if s.started && !s.provisioning && cap > s.reserved + fac * s.parts && s.creates ≥ 2 then
+              m := m.add "C17" "dropped-partition-still-counted"
+            -- C07: demand at or below the reserve for more than a lease duration (plus call latencies): nothing but the reserve is left
+            match s.lastGiveMe with
+            | some (tg, _) =>
+              let lat := (c.pre ++ c.post).foldl max 0
+              if s.started && !busy && s.target == 0 && tg + sc.lease + 2 * lat + 1000000000 ≤ t && cap > s.reserved then
+                m := m.add "C07" "capacity-not-decayed-to-reserve"
+            | none => pure ()
             -- (while CreatePartitions runs the published figure still reflects the partition list before the resize)
             if s.started && !s.provisioning && cap > s.reserved + fac * s.parts then
               m := m.add "C06" "capacity-above-reserved-plus-factor-times-partitions"
@@ -215,6 +237,22 @@ def monitorLease (sc : LScn) (entries : List String) : List (String × String) :
         let lat := (c.pre ++ c.post).foldl max 0
         let window := sc.lease + (s.parts + 1) * (mi + 2 * lat) + 1000000000
         let others := (m.insts.toList.zipIdx.filter fun (o, j) => j != i && o.started && o.shutdownAt.isNone && !o.crashed && o.target > 0)
+        -- C09 (contended): a partition that has been free for a long window, next to an instance that needed more
+        -- for that whole window and whose calls were not being failed, must have been picked: with at most 6
+        -- partitions, 150 attempts each choosing uniformly among the partitions it does not hold miss it with
+        -- probability below 1e-11
+        let win := 150 * (mi + 2 * lat)
+        if s.started && s.shutdownAt.isNone && !s.stopAsked && !s.crashed && !s.provisioning && s.parts ≤ 6 && s.parts > 0 &&
+           s.procs ≥ c.faults.length && s.faultsDoneAt + win ≤ t then
+          match s.needySince with
+          | some t0 =>
+            if t0 + win ≤ t then
+              let freeLong := (List.range s.parts).any fun p =>
+                !s.held.contains p && (match m.store.find? (·.1 == p) with
+                  | some (_, _, u) => decide (u + win ≤ t)
+                  | none => true)
+              if freeLong then m := m.add "C09" "free-partition-not-acquired-by-needy-instance"
+          | none => pure ()
         match s.lastGiveMe with
         | some (tg, _) =>
           if s.started && s.shutdownAt.isNone && !s.stopAsked && !s.crashed && others.isEmpty &&
@@ -223,7 +261,7 @@ def monitorLease (sc : LScn) (entries : List String) : List (String × String) :
         | none => pure ()
   return m.viols
 
-def checkLease (inp obs : KV) : Option String × List (String × String) :=
+def checkLeaseMon (inp obs : KV) : Option String × List (String × String) :=
   if obs.has "crash" then (some ("fields=crash " ++ obs.get "crash"), [("C20", "crash:" ++ obs.get "crash")]) else
   let sc := parseLScn inp
   if obs.has "hang" then
